@@ -307,6 +307,22 @@ class NoClearBackend(joblib._store_backends.FileSystemStoreBackend):
 
 joblib.register_store_backend("verif_noclear", NoClearBackend)
 LOAD_LIMIT = 300   # load_item calls within ONE cached call: beyond that it is a retry loop, not a recovery
+SIGN = [0]
+NP_LOADS = [None]
+NP_COUNT = [0]
+_real_np_load = joblib.numpy_pickle.load
+
+
+def _counting_np_load(*a, **kw):
+    """numpy_pickle.load as seen by the store backend: a retry loop INSIDE load_item shows up here"""
+    if NP_LOADS[0] is not None:
+        NP_COUNT[0] += 1
+        if NP_COUNT[0] > LOAD_LIMIT:
+            raise Spin("numpy_pickle.load called %d times within one cached call" % NP_COUNT[0])
+    return _real_np_load(*a, **kw)
+
+
+joblib._store_backends.numpy_pickle.load = _counting_np_load
 
 
 def run_memory(c):
@@ -317,18 +333,42 @@ def run_memory(c):
         und = c.get("undeletable")
         mem = joblib.Memory(d, verbose=0, compress=comp, **({"backend": "verif_noclear"} if und == "noclear" else {}))
         calls = []
-
-        def f(x):
-            calls.append(x)
-            return make_obj(c["obj"], x)
-        f.__module__ = "verif_c14"
-        f.__qualname__ = f.__name__ = "f"
+        sig = c.get("sig")
+        if sig:
+            # a cached function whose parameter names collide with those of joblib's internal helpers
+            # (func, args, kwargs, self, ...), defined in a real module so that its source can be inspected
+            import importlib
+            SIGN[0] += 1
+            modname = "verif_c14_sig_%d_%d" % (os.getpid(), SIGN[0])
+            with open(os.path.join(side, modname + ".py"), "w") as fh:
+                fh.write("CALLS = []\nRESULT = [None]\n\n\ndef f(%s):\n    CALLS.append(1)\n    return RESULT[0]\n"
+                         % ", ".join(sig))
+            sys.path.insert(0, side)
+            try:
+                mod = importlib.import_module(modname)
+            finally:
+                sys.path.remove(side)
+            mod.RESULT[0] = make_obj(c["obj"], 1)
+            calls = mod.CALLS
+            f = mod.f
+            vals = list(range(1, len(sig) + 1))
+            if c.get("callstyle") == "kw":
+                cargs, ckw = [], dict(zip(sig, vals))
+            else:
+                cargs, ckw = vals, {}
+        else:
+            def f(x):
+                calls.append(x)
+                return make_obj(c["obj"], x)
+            f.__module__ = "verif_c14"
+            f.__qualname__ = f.__name__ = "f"
+            cargs, ckw = [1], {}
         cf = mem.cache(f)
         truth = make_obj(c["obj"], 1)
-        v0 = cf(1)
-        if not deep_eq(v0, truth) or calls != [1]:
+        v0 = cf(*cargs, **ckw)
+        if not deep_eq(v0, truth) or len(calls) != 1:
             return {"harness_error": "first call did not compute"}
-        entry = os.path.join(cf.store_backend.location, cf.func_id, cf._get_args_id(1))
+        entry = os.path.join(cf.store_backend.location, cf.func_id, cf._get_args_id(*cargs, **ckw))
         if und == "symlink":
             # the entry directory is a symlink: shutil.rmtree refuses symlinks, so the entry cannot be deleted
             real = os.path.join(side, "entry")
@@ -336,7 +376,13 @@ def run_memory(c):
             os.symlink(real, entry)
         path = os.path.join(entry, "output.pkl")
         orig = open(path, "rb").read()
-        # deterministic detector of a retry loop: count the loads of one cached call
+        if c.get("stale_tmp"):
+            # what a writer killed in the middle of its dump leaves behind (concurrency_safe_write's temporary name,
+            # thread id and pid of a process that no longer exists): half a pickle next to the item
+            with open(path + ".thread-139872341234-pid-4194301", "wb") as fh:
+                fh.write(orig[:len(orig) // 2])
+        # deterministic detectors of a retry loop: count the loads of one cached call, at the store level and at
+        # the numpy_pickle level (a retry inside load_item is one load_item call)
         loads = [0]
         real_load = cf.store_backend.load_item
 
@@ -346,14 +392,16 @@ def run_memory(c):
                 raise Spin("load_item called %d times within one cached call" % loads[0])
             return real_load(*a, **kw)
         cf.store_backend.load_item = counting_load
+        NP_LOADS[0] = loads
 
         def call():
             loads[0] = 0
+            NP_COUNT[0] = 0
             if not c.get("werror"):
-                return cf(1)
+                return cf(*cargs, **ckw)
             with warnings.catch_warnings():
                 warnings.simplefilter("error")   # as under `python -W error`
-                return cf(1)
+                return cf(*cargs, **ckw)
         res = []
         damages = []
         for dmg in c["damage"]:
@@ -367,7 +415,9 @@ def run_memory(c):
             else:
                 damages.append(dmg)
         for dmg in damages:
-            if dmg[0] == "trunc":
+            if dmg[0] == "none":
+                bad = orig          # no damage: only the surroundings (a stale temporary file) differ
+            elif dmg[0] == "trunc":
                 bad = orig[:max(0, min(len(orig) - 1, dmg[1]))]
             elif dmg[0] == "frac":
                 bad = orig[:max(0, min(len(orig) - 1, len(orig) * dmg[1] // dmg[2]))]
@@ -383,19 +433,20 @@ def run_memory(c):
                 code = "E" if deep_eq(r[1], truth) else "D"
             else:
                 code = "R:" + r[1] if r[0] == "raises" else "H:" + r[1]
-            recomputed = calls == [1]
+            recomputed = len(calls) == 1
             # the entry must be usable afterwards whatever happened
             del calls[:]
             r2 = guarded(call)
             after = "E" if r2[0] == "ok" and deep_eq(r2[1], truth) else ("D" if r2[0] == "ok" else r2[0] + ":" + str(r2[1]))
             res.append({"damage": dmg, "len": len(bad), "orig_len": len(orig), "code": code, "recomputed": recomputed,
-                        "after": after, "after_recomputed": calls == [1], "strict_prefix": len(bad) < len(orig)})
+                        "after": after, "after_recomputed": len(calls) == 1, "strict_prefix": len(bad) < len(orig)})
             with open(path, "wb") as fh:
                 fh.write(orig)
             if code.startswith("H"):
                 break
         return {"results": res}
     finally:
+        NP_LOADS[0] = None
         shutil.rmtree(d, ignore_errors=True)
         shutil.rmtree(side, ignore_errors=True)
 
